@@ -41,13 +41,13 @@ def h_prfplus(prf_id, klen, slen, size):
     return ['prfplus', bool(ok)]
 
 
-def h_ike_keys(prf_id, integ_id, keylen, rekey, is_initiator, nlen):
+def h_ike_keys(prf_id, integ_id, keylen, rekey, is_initiator, nlen, nlen_r=None):
     from symx import core
     eng = core.engine()
     m, c, ik = MODS['message'], MODS['crypto'], MODS['ikesa']
     T = m.Transform
     prop = m.Proposal(1, 1, b'', [T(1, 12, keylen), T(3, integ_id), T(2, prf_id), T(4, 14)])
-    ni, nr = eng.sym_bytes('ni', nlen), eng.sym_bytes('nr', nlen + 1)
+    ni, nr = eng.sym_bytes('ni', nlen), eng.sym_bytes('nr', nlen + 1 if nlen_r is None else nlen_r)
     spi_i, spi_r, secret = eng.sym_bytes('spi_i', 8), eng.sym_bytes('spi_r', 8), eng.sym_bytes('g_ir', 12)
     h, pk = PRFS[prf_id]
     old = eng.sym_bytes('old_sk_d', pk) if rekey else None
@@ -85,7 +85,12 @@ def h_child_keys(prf_id, integ_id, keylen, proto, with_dh):
     sk_d = eng.sym_bytes('sk_d', pk)
     ni, nr = eng.sym_bytes('ni', 16), eng.sym_bytes('nr', 17)
     keyseed = ((eng.sym_bytes('g_ir', 9) + ni + nr) if with_dh else (ni + nr))
-    fake = types.SimpleNamespace(my_crypto=types.SimpleNamespace(prf=prf), log_debug=lambda *a: None)
+    # the IKE_SA's own suite differs from the CHILD_SA's (another integrity algorithm and key length): sizes must come from the CHILD proposal
+    ike_integ = c.Integrity(T(3, 14 if integ_id != 14 else 2))
+    ike_cipher = c.Cipher(T(1, 12, 128 if keylen == 256 else 256))
+    fake = types.SimpleNamespace(my_crypto=c.Crypto(ike_cipher, b'e' * ike_cipher.key_size, ike_integ, b'a' * ike_integ.key_size, prf, b'p' * pk),
+                                 peer_crypto=c.Crypto(ike_cipher, b'E' * ike_cipher.key_size, ike_integ, b'A' * ike_integ.key_size, prf, b'P' * pk),
+                                 log_debug=lambda *a: None, is_initiator=True, ike_sa_keyring=None, chosen_proposal=None, configuration=None)
     kr = ik.IkeSa.generate_child_sa_key_material(fake, prop, keyseed, sk_d)
     ikl, ekl = INTEG[integ_id], (keylen // 8 if proto == 3 else 0)
     km = ref_prfplus(h, sk_d, keyseed, 2 * ikl + 2 * ekl)
@@ -103,6 +108,15 @@ def build_instances(tier):
     for prf_id in PRFS:
         for size in sizes:
             inst.append(Instance(f'prfplus prf={prf_id} size={size}', h_prfplus, (prf_id, 16 if size % 2 else 33, 24, size)))
+        # key lengths around the block size of the hash (RFC 2104: keys LONGER than one block are hashed first)
+        for klen in ((63, 64, 65, 127, 128, 129) if tier == 'quick' else tuple(range(60, 70)) + tuple(range(124, 134)) + (1, 200, 256)):
+            inst.append(Instance(f'prfplus prf={prf_id} size=40 keylen={klen}', h_prfplus, (prf_id, klen, 24, 40)))
+        # SKEYSEED = prf(Ni | Nr, g^ir): nonce pairs whose concatenation is exactly one block / one byte more / less
+        for (a, b) in ((32, 32), (31, 32), (33, 32), (64, 64), (64, 65), (16, 48), (256, 256)):
+            if tier == 'quick' and (a, b) in ((31, 32), (64, 65), (16, 48)):
+                continue
+            inst.append(Instance(f'ike keys prf={prf_id} integ=12 keylen=256 rekey=False initiator=True nonces={a}+{b}', h_ike_keys,
+                                 (prf_id, 12, 256, False, True, a, b)))
     for prf_id in PRFS:
         for integ_id in INTEG:
             for keylen in (128, 256):
@@ -131,6 +145,7 @@ def replay_file(path):
     name, inp = v['instance'], v['inputs']
     T = m.Transform
     kv = dict(x.split('=') for x in name.split() if '=' in x)
+    kv.setdefault('keylen', '256')
     h, pk = PRFS[int(kv['prf'])]
     hx = lambda k: bytes.fromhex(inp[k])
 
@@ -165,7 +180,12 @@ def replay_file(path):
     trs = [T(3, integ_id), T(5, 0)] + ([T(1, 12, keylen)] if proto == 3 else [])
     prop = m.Proposal(1, proto, b'\1\2\3\4', trs)
     keyseed = (hx('g_ir') if kv['dh'] == 'True' else b'') + hx('ni') + hx('nr')
-    fake = types.SimpleNamespace(my_crypto=types.SimpleNamespace(prf=c.Prf(T(2, int(kv['prf'])))), log_debug=lambda *a: None)
+    prf = c.Prf(T(2, int(kv['prf'])))
+    ike_integ = c.Integrity(T(3, 14 if integ_id != 14 else 2))
+    ike_cipher = c.Cipher(T(1, 12, 128 if keylen == 256 else 256))
+    fake = types.SimpleNamespace(my_crypto=c.Crypto(ike_cipher, b'e' * ike_cipher.key_size, ike_integ, b'a' * ike_integ.key_size, prf, b'p' * pk),
+                                 peer_crypto=c.Crypto(ike_cipher, b'E' * ike_cipher.key_size, ike_integ, b'A' * ike_integ.key_size, prf, b'P' * pk),
+                                 log_debug=lambda *a: None, is_initiator=True, ike_sa_keyring=None, chosen_proposal=None, configuration=None)
     kr = ik.IkeSa.generate_child_sa_key_material(fake, prop, keyseed, hx('sk_d'))
     ikl, ekl = INTEG[integ_id], (keylen // 8 if proto == 3 else 0)
     km = PP(hx('sk_d'), keyseed, 2 * ikl + 2 * ekl)
@@ -176,6 +196,8 @@ def replay_file(path):
 def main(tier, seed):
     global MODS
     MODS = common.load_repo()
+    from symx import shims
+    shims.install_hash_level(MODS)
     c, ik = MODS['crypto'], MODS['ikesa']
     chk = Check('C04', tier, seed,
                 functions=common.src_hash(c.Prf.prf, c.Prf.prfplus, ik.IkeSa.generate_ike_sa_key_material,
@@ -186,8 +208,9 @@ def main(tier, seed):
                         'CHILD keys': 'ESP and AH, with and without a fresh DH secret',
                         'outside': 'HMAC/AES arithmetic, DH group primes and the fixed-width encoding of DH public values / shared secrets '
                                    '(C code in cryptography/OpenSSL, not encodable); which nonces/secret the handshake passes in (C01)'},
-                assumptions=['HMAC is an uninterpreted function with functional consistency; the reference transcribes RFC 7296 2.13, 2.14, '
-                             '2.17, 2.18 independently of the code under test'],
+                assumptions=['the HASH function (SHA-1/SHA-256/SHA-512) is an uninterpreted function with functional consistency; HMAC is its RFC 2104 '
+                             'construction, on the reference side transcribed in symx/shims.hmac_rfc2104, so code that builds HMAC itself from hashlib is comparable',
+                             'the reference transcribes RFC 7296 2.13, 2.14, 2.17, 2.18 independently of the code under test'],
                 stubs=['crypto.HMAC (UF)', 'ikesa.unpack', 'SymDict digest tables'])
     chk.run(build_instances(tier))
     return chk.finish(replay=lambda v: common.native_replay_subprocess('C04', v))
